@@ -50,7 +50,7 @@ def cases(tier):
         chunk = ns[i:i + per]
         out.append(dict(name="fp_np_n%d" % chunk[0], kind="fp", backend="cvc5", ns=chunk, weight=100 + chunk[0] % 7))
     out.append(dict(name="ga_concrete", kind="ga", ns=list(range(7, 201 if tier == "quick" else 5001)), weight=1))
-    for alphas in ([0.5], [0.7], [0.5, 0.7]):
+    for alphas in ([0.5], [0.7], [0.5, 0.7], [0.7, 0.5]):
         need = max(math.ceil((1 + a) / (1 - a)) for a in alphas)
         for n in range(2, 9):
             out.append(dict(name="gate_np_%s_n%d" % ("+".join(map(str, alphas)), n), kind="gate", pi="nonparametric",
